@@ -114,6 +114,13 @@ func lexSpec(src string) ([]tok, error) {
 			}
 			out = append(out, tok{"id", src[i:j]})
 			i = j
+		case c == '`':
+			j := strings.IndexByte(src[i+1:], '`')
+			if j < 0 {
+				return nil, fmt.Errorf("unterminated type quote in %q", src)
+			}
+			out = append(out, tok{"id", src[i+1 : i+1+j]})
+			i += j + 2
 		case c == '"':
 			j := i + 1
 			for j < len(src) && src[j] != '"' {
@@ -570,12 +577,12 @@ func (c *FuncContract) HasTag(tag string) bool {
 }
 
 type SpecFunc struct {
-	Name    string
-	Params  []SVar
-	Result  string
-	Body    *SExpr // nil: uninterpreted
-	File    string
-	Line    int
+	Name   string
+	Params []SVar
+	Result string
+	Body   *SExpr // nil: uninterpreted
+	File   string
+	Line   int
 }
 
 type GhostDecl struct {
@@ -612,30 +619,32 @@ type GuardDecl struct {
 }
 
 type Specs struct {
-	Funcs      map[string]*FuncContract
-	SpecFuncs  map[string]*SpecFunc
-	Ghosts     map[string]*GhostDecl
-	Lemmas     []*Lemma
-	Hooks      []*StoreHook
-	Guards     []*GuardDecl
-	LockRank   []string
-	Immutable  []string
-	Consts     map[string]string
-	Files      []string
-	LockInv    map[string][]Clause
-	TypeInv    map[string][]Clause
+	Funcs        map[string]*FuncContract
+	SpecFuncs    map[string]*SpecFunc
+	Ghosts       map[string]*GhostDecl
+	Lemmas       []*Lemma
+	Hooks        []*StoreHook
+	Guards       []*GuardDecl
+	LockRank     []string
+	Immutable    []string
+	Consts       map[string]string
+	Files        []string
+	LockInv      map[string][]Clause
+	TypeInv      map[string][]Clause
+	Frames       map[string][]*SExpr
+	StableNonNil map[string]bool // heap keys whose non-nil-ness, once established, is never undone
 }
 
 func newSpecs() *Specs {
 	return &Specs{Funcs: map[string]*FuncContract{}, SpecFuncs: map[string]*SpecFunc{}, Ghosts: map[string]*GhostDecl{},
-		Consts: map[string]string{}, LockInv: map[string][]Clause{}, TypeInv: map[string][]Clause{}}
+		StableNonNil: map[string]bool{}, Frames: map[string][]*SExpr{}, Consts: map[string]string{}, LockInv: map[string][]Clause{}, TypeInv: map[string][]Clause{}}
 }
 
 var itemKeywords = map[string]bool{
 	"func": true, "assume": true, "requires": true, "ensures": true, "assigns": true, "emits": true,
 	"loop": true, "on_panic": true, "spec": true, "ghost": true, "lemma": true, "axiom": true,
 	"on_store": true, "guarded_by": true, "lock_rank": true, "immutable": true, "attr": true,
-	"uses": true, "params": true, "results": true, "lock_invariant": true, "type_invariant": true, "end": true,
+	"stable": true, "frame": true, "uses": true, "params": true, "results": true, "lock_invariant": true, "type_invariant": true, "end": true,
 }
 
 type rawItem struct {
@@ -831,11 +840,37 @@ func (sp *Specs) parseItem(path string, it rawItem, cur **FuncContract) error {
 			return nil
 		}
 		for _, part := range splitTop(rest) {
+			if strings.HasPrefix(part, "@") {
+				(*cur).Assigns = append((*cur).Assigns, &SExpr{Op: "frameref", Name: part[1:]})
+				continue
+			}
 			e, err := parseSpecExpr(part)
 			if err != nil {
 				return err
 			}
 			(*cur).Assigns = append((*cur).Assigns, e)
+		}
+	case "stable":
+		*cur = nil
+		f := strings.Fields(rest)
+		if len(f) != 2 || f[1] != "nonnil" {
+			return fmt.Errorf("stable: expected '<heap key> nonnil'")
+		}
+		sp.StableNonNil[f[0]] = true
+	case "frame":
+		*cur = nil
+		kv := strings.SplitN(rest, "=", 2)
+		name := strings.TrimSpace(kv[0])
+		for _, part := range splitTop(kv[1]) {
+			if strings.HasPrefix(part, "@") {
+				sp.Frames[name] = append(sp.Frames[name], &SExpr{Op: "frameref", Name: part[1:]})
+				continue
+			}
+			e, err := parseSpecExpr(part)
+			if err != nil {
+				return err
+			}
+			sp.Frames[name] = append(sp.Frames[name], e)
 		}
 	case "emits":
 		if err := needCur(); err != nil {
